@@ -29,7 +29,7 @@ def make_jobs(rng: Rng, n: int) -> list[dict]:
     jobs = []
     for i in range(n):
         per = rng.choice([1 * S, 2 * S, 2 * S, 10 * S])
-        prof = rng.choice(["const", "grow", "shrink", "random", "zero"])
+        prof = rng.choice(["const", "grow", "shrink", "random", "zero", "edge"])
         iters = 12
         durs = []
         for k in range(iters):
@@ -42,6 +42,9 @@ def make_jobs(rng: Rng, n: int) -> list[dict]:
                 d = max(0, base * (8 - 2 * k))
             elif prof == "zero":
                 d = 0
+            elif prof == "edge":
+                # finishing a fraction of a millisecond before / after the next slot: the successor is due (almost) at once
+                d = per + rng.choice([-1500, -900, -300, -1, 0, 1, 400])
             else:
                 d = rng.randrange(0, int(per * 1.4))
             durs.append(d)
@@ -197,7 +200,11 @@ def run(ctx) -> Result:
     # the same on the Redis and RabbitMQ brokers (in-process fake servers)
     for kind in ("redis", "rabbit"):
         rng = Rng(seed, f"c06/{kind}")
-        sc = {"jobs": make_jobs(rng, 8 if deep else 5), "converter": "basic", "policy": {"kind": "const", "us": 100_000},
+        jobs = make_jobs(rng, 8 if deep else 5)
+        # always one job whose iterations end a fraction of a millisecond before the next slot (the successor is due at once)
+        jobs.append({"id": "pe", "retries": 0, "defer_by": 1 * S, "timeout": 30 * S, "profile": "edge", "pattern": ["ok"] * 12,
+                     "plan": [{"k": "ret", "dur": 1 * S - [300, 900, 1, 1500][k % 4]} for k in range(12)], "store_result": False})
+        sc = {"jobs": jobs, "converter": "basic", "policy": {"kind": "const", "us": 100_000},
               "horizon_s": 32.0, "tasks_limit": 1000, "broker": kind}
         o = vtime.run(lambda loop, s=sc: scenario(s), budget=300_000_000)
         check(o, model, res, f"recurring-{kind}-{seed}")
